@@ -313,6 +313,10 @@ func c02r1(c *Ctx) {
 		for _, s := range storesTo(fn, deltaF) {
 			nw++
 			_, ok := allowed[fn.String()]
+			if !ok {
+				// a helper extracted from a listed function (all its call sites are there)
+				ok = p.extractedFrom(fn, func(f *ssa.Function) bool { _, in := allowed[f.String()]; return in }, 2) != nil
+			}
 			c.Check("Delta writer:"+shortFn(fn), s.Pos(), ok, "PushRequest.Delta is set here; Merge/CopyMerge drop Delta, so only un-queued client requests may set it")
 		}
 	}
